@@ -1402,3 +1402,86 @@ pub fn gen_snapgrid(seed: u64, idx: u64, backend: Backend, entry: Entry) -> SeqP
         route: vec![],
     }
 }
+
+// ---------------------------------------------------------------------------------------------
+// C02/C08 small-scope enumeration: chain length 0..=8 x base nil/non-nil x snapshot present or not
+// x requested parent p (nil, latest, each older version, chain base, fresh, foreign); each case is a
+// probe-then-add pair on the same state followed by a second probe
+
+pub fn parentgrid_cases() -> Vec<(u8, bool, bool, IdArgSel)> {
+    let mut v = Vec::new();
+    for n in 0..=8u8 {
+        for base_nonnil in [false, true] {
+            for snap in [false, true] {
+                if snap && n == 0 {
+                    continue;
+                }
+                let mut sels = vec![IdArgSel::Nil, IdArgSel::Base, IdArgSel::Fresh, IdArgSel::Foreign];
+                for k in 1..=n {
+                    sels.push(IdArgSel::Pos(k));
+                }
+                for sel in sels {
+                    v.push((n, base_nonnil, snap, sel));
+                }
+            }
+        }
+    }
+    v
+}
+
+pub fn gen_parentgrid(seed: u64, idx: u64, backend: Backend, entry: Entry) -> SeqPlan {
+    let cases = parentgrid_cases();
+    let (n, base_nonnil, snap, sel) = cases[(idx % cases.len() as u64) as usize];
+    let mut r = Rng::stream(seed, "plan");
+    let mut tag = 0u32;
+    let mut pay = |r: &mut Rng| -> Pay {
+        tag += 1;
+        Pay { class: r.below(ops::N_CLASSES as u64) as u8, len: r.range(1, 30) as u32, tag }
+    };
+    let mut ops_v = Vec::new();
+    if entry == Entry::Lib {
+        ops_v.push(Op::Create { c: 0 });
+        ops_v.push(Op::Create { c: 1 });
+    }
+    for _ in 0..2 {
+        ops_v.push(Op::AddVersion { c: 1, parent: IdArg::Latest, pay: pay(&mut r), ch: Chunking::Whole });
+    }
+    for i in 1..=n {
+        let parent = if i == 1 { if base_nonnil { IdArg::Fresh(1) } else { IdArg::Nil } } else { IdArg::Latest };
+        ops_v.push(Op::AddVersion { c: 0, parent, pay: pay(&mut r), ch: Chunking::Whole });
+        if snap && i == n.div_ceil(2) {
+            ops_v.push(Op::AddSnapshot { c: 0, v: IdArg::Latest, pay: pay(&mut r), ch: Chunking::Whole });
+        }
+    }
+    let parg = match sel {
+        IdArgSel::Nil => IdArg::Nil,
+        IdArgSel::Base => IdArg::Base,
+        IdArgSel::Fresh => IdArg::Fresh(7),
+        IdArgSel::Foreign => IdArg::Foreign { dc: 0, back: 0 },
+        IdArgSel::Pos(k) => {
+            if k == n {
+                IdArg::Latest
+            } else {
+                IdArg::Back(n - 1 - k)
+            }
+        }
+    };
+    ops_v.push(Op::GetChild { c: 0, parent: parg.clone() });
+    ops_v.push(Op::AddVersion { c: 0, parent: parg.clone(), pay: pay(&mut r), ch: Chunking::Whole });
+    ops_v.push(Op::GetChild { c: 0, parent: parg });
+    SeqPlan {
+        seed,
+        backend,
+        entry,
+        page_size: None,
+        n_clients: 2,
+        cfg: Cfg { days: 14, versions: 100 },
+        start_us: 0,
+        ops: ops_v,
+        walk_every: 0,
+        audit: true,
+        instances: 1,
+        skews_us: vec![],
+        route: vec![],
+    }
+}
